@@ -17,5 +17,6 @@ def run(ctx):
     ctx.assumptions += [
         "the judge (K1 deciders) is proved sound and complete; 'all histories' of the real code is sampled by seeded histories",
         "Chernikova conversion/simplification are not modelled: they are observed through constraints()/generators() against the exact oracle",
-        "affine_dimension and boundedness oracles are executable but not yet proved (Gaussian rank / recession cone)",
+        "every query oracle is proved two-sided (C01.query_*: is_bounded via supB, affine_dimension via Gaussian elimination "
+        "on the implicit equalities with an explicit affine basis, relation_with congruence / generator, constrains)",
     ]
